@@ -64,7 +64,63 @@ Definition k_push_opts (b : plan) (afters : list (nat * plan)) : bool :=
 Definition k_reorder_opts (b : plan) (afters : list (nat * plan)) : bool :=
   existsb (fun ma => sw_jr (fst ma) && k_reorder (if sw_fp (fst ma) then pfd b else b) (snd ma)) afters.
 
-(** *** engine rows against [sem] *)
+(** *** classes that come from the executor, not from the rewrites
+    3: [FilterOperator] forgets the selection of its input (Plan.v, [semq]); push-down creates and
+       removes Filter-on-Filter stacks, so the *same* predicates give different rows.
+    4: [x.p] on an edge variable evaluated above an operator whose output vectors are untyped
+       (joins, the nested loop of a chained NodeScan, Project, ...) is answered from the *node*
+       with the same id (filter.rs: "try as node first" on a Generic column); below it (typed
+       EdgeId column) it is answered from the edge.  Push-down moves the predicate across. *)
+Definition k_stack_opts (b : plan) (afters : list (nat * plan)) : bool :=
+  existsb (fun ma => negb (conds_perm (stack_sig b) (stack_sig (snd ma)))) afters.
+
+Fixpoint edge_vars (p : plan) : list var :=
+  match p with
+  | PExpand _ _ ev _ _ i => (match ev with Some e => [e] | None => [] end) ++ edge_vars i
+  | PScanIn _ _ i | PFilter _ i | PProject _ i | PReturn _ _ i | PAgg _ _ i
+  | PSort _ i | PSkip _ i | PLimit _ i | PDistinct i => edge_vars i
+  | PJoin _ _ l r | PLeftJoin l r | PUnion l r => edge_vars l ++ edge_vars r
+  | PEmpty | PScan _ _ => []
+  end.
+
+Fixpoint prop_vars (e : expr) : list var :=
+  match e with
+  | EProp x _ => [x]
+  | EBin _ a b => prop_vars a ++ prop_vars b
+  | EUn _ a => prop_vars a
+  | _ => []
+  end.
+
+(** vectors keep their NodeId/EdgeId type only along Scan / Expand / Filter chains *)
+Fixpoint typed_chain (p : plan) : bool :=
+  match p with
+  | PScan _ _ => true
+  | PExpand _ _ _ _ _ i | PFilter _ i => typed_chain i
+  | _ => false
+  end.
+
+Fixpoint edge_prop_untyped (evs : list var) (p : plan) : bool :=
+  match p with
+  | PFilter e i => (uses_any (prop_vars e) evs && negb (typed_chain i)) || edge_prop_untyped evs i
+  | PScanIn _ _ i | PExpand _ _ _ _ _ i | PProject _ i | PReturn _ _ i | PAgg _ _ i
+  | PSort _ i | PSkip _ i | PLimit _ i | PDistinct i => edge_prop_untyped evs i
+  | PJoin _ _ l r | PLeftJoin l r | PUnion l r => edge_prop_untyped evs l || edge_prop_untyped evs r
+  | PEmpty | PScan _ _ => false
+  end.
+
+Definition k_edge_opts (b : plan) (afters : list (nat * plan)) : bool :=
+  let evs := edge_vars b in
+  edge_prop_untyped evs b || existsb (fun ma => edge_prop_untyped evs (snd ma)) afters.
+
+(** the class of a failing case: 0 = none of the listed ones *)
+Definition k_class (b : plan) (afters : list (nat * plan)) : nat :=
+  if k_push_opts b afters then 1%nat
+  else if k_reorder_opts b afters then 2%nat
+  else if k_edge_opts b afters then 4%nat
+  else if k_stack_opts b afters then 3%nat
+  else 0%nat.
+
+(** *** engine rows against the model ([sem_e] = [sem] with the engine's stacked filters) *)
 Definition vals (r : row) : list val := map (fun kv => as_value (snd kv)) r.
 
 Fixpoint remove_vals (x : list val) (l : list (list val)) : option (list (list val)) :=
@@ -80,8 +136,8 @@ Fixpoint bag_eqb (a b : list (list val)) : bool :=
 
 (** [ordered]: the query has an ORDER BY on a total key, compare sequences *)
 Definition chk_sem (G : graph) (p : plan) (ordered : bool) (rows : list (list val)) : bool :=
-  let m := map vals (sem G p) in
+  let m := map vals (sem_e G p) in
   if ordered then list_eqb (list_eqb val_eqb) m rows else bag_eqb m rows.
 
-Definition show_sem (G : graph) (p : plan) : list (list val) := map vals (sem G p).
+Definition show_sem (G : graph) (p : plan) : list (list val) := map vals (sem_e G p).
 Definition show_opt (fp : bool) (b : plan) : plan := if fp then pfd b else b.
